@@ -125,6 +125,13 @@ var hasArray = []bool{false, false, true, true}
 // ref: >=0 struct node index; <0 source -(s+1); none = unconnected
 const none = 1 << 20
 
+// JoinSliceData turns a slice-valued source into the string the processors read.
+type JoinSliceData struct {
+	In nodes.NodeOutput[[]string]
+}
+
+func (d JoinSliceData) Process() (string, error) { return strings.Join(d.In.Value(), ""), nil }
+
 // alertReader is a subscriber that does something (reads a node) when alerted.
 type alertReader func()
 
@@ -142,6 +149,12 @@ type world struct {
 	srcVal  []string
 	srcKind []int // 0 parameter.Value, 1 nodes.ValueNode, 2 nodes.FuncValue over a function that reads cell[s]
 	cell    []*string
+	// kind 3: a value node holding a SLICE (reference semantics), read
+	// through an adapter node that joins it; an update edits the caller's
+	// slice in place and sets it again
+	slices   []*nodes.ValueNode[[]string]
+	sliceBuf [][]string
+	adapters []*nodes.Struct[string, JoinSliceData]
 	nodes   []*mnode
 
 	// real side
@@ -249,6 +262,9 @@ func (w *world) output(r int) nodes.NodeOutputReference {
 		if w.srcKind[s] == 0 {
 			return w.params[s].Out()
 		}
+		if w.srcKind[s] == 3 {
+			return w.adapters[s].Out()
+		}
 		return w.values[s].Out()
 	}
 	return w.outRef[r]()
@@ -335,9 +351,26 @@ func (Scenario) Run(c choice.Chooser, opt sim.Options) (res sim.Result) {
 			// environment (cell): evaluated once, however often it is read
 			k = 2
 		}
+		if k == 1 && c.Intn("g:slicevalue", 4) == 3 {
+			k = 3
+		}
 		w.srcKind = append(w.srcKind, k)
 		w.cell = append(w.cell, nil)
+		w.slices = append(w.slices, nil)
+		w.sliceBuf = append(w.sliceBuf, nil)
+		w.adapters = append(w.adapters, nil)
 		v := fmt.Sprintf("s%d.0", s)
+		if k == 3 {
+			buf := []string{v}
+			sv := nodes.Value(buf)
+			w.slices[s], w.sliceBuf[s] = sv, buf
+			w.adapters[s] = &nodes.Struct[string, JoinSliceData]{Data: JoinSliceData{In: sv.Out()}}
+			w.srcVal = append(w.srcVal, v)
+			w.params = append(w.params, nil)
+			w.values = append(w.values, nil)
+			res.Count("probe:slice-valued-source", 1)
+			continue
+		}
 		if c.Intn("g:twin", 3) == 2 {
 			// look-alike sources: same name, same value, same version
 			v = []string{"a", "b"}[c.Intn("g:twinval", 2)]
@@ -457,9 +490,12 @@ func (Scenario) Run(c choice.Chooser, opt sim.Options) (res sim.Result) {
 			reentrant = true
 			w.val[target]()
 		})
-		if w.srcKind[s] == 0 {
+		switch w.srcKind[s] {
+		case 0:
 			w.params[s].AddSubscription(a)
-		} else {
+		case 3:
+			w.slices[s].AddSubscription(a)
+		default:
 			w.values[s].AddSubscription(a)
 		}
 		subs = append(subs, fmt.Sprintf("src%d->read n%d", s, target))
@@ -605,6 +641,11 @@ ops:
 				if _, err := w.params[s].ApplyMessage([]byte(strconv.Quote(v))); err != nil {
 					return violate("panic", "ApplyMessage failed: "+err.Error())
 				}
+			} else if w.srcKind[s] == 3 {
+				// the caller edits its own slice in place and hands the
+				// same slice over again
+				w.sliceBuf[s][0] = v
+				w.slices[s].Set(w.sliceBuf[s])
 			} else {
 				w.values[s].Set(v)
 			}
@@ -699,9 +740,12 @@ ops:
 			s := c.Intn("op:src", ns)
 			what = fmt.Sprintf("read src%d", s)
 			var got string
-			if w.srcKind[s] == 0 {
+			switch w.srcKind[s] {
+			case 0:
 				got = w.params[s].Value()
-			} else {
+			case 3:
+				got = strings.Join(w.slices[s].Value(), "")
+			default:
 				got = w.values[s].Value()
 			}
 			hist = append(hist, what+" -> "+got)
